@@ -137,6 +137,23 @@ CHECKS = {
               'duplicates with a different value placed before the governing line exercise last-occurrence-wins.'),
         design_ref='DESIGN.md section 4 C12',
         note='Structural options read by Model.__init__ are excluded from the different-value duplicate test.'),
+    'C08': dict(
+        engine='histx',
+        technique='explicit-state search over request histories on the real process: all histories up to a depth over a fixed event menu, each replayed in one forked process, with the process-state vector as canonical state',
+        category='exploration',
+        text=('All histories of length <= 2 over 12 events (+ length 3 over 6; thorough: length <= 3 over 15) incl. failing requests, file rewrites '
+              'between calls, caching and non-caching clients, HIP-RA-X; every result compared with the isolated run of the same content (three '
+              'hash seeds, two directories), cwd/argv identity after every call, process-state vector against the pristine one.'),
+        design_ref='DESIGN.md sections 3.3, 4 C08',
+        note='Memo tables (lru_cache, pint registry) are treated as pure caches and reported, not compared.'),
+    'C20': dict(
+        engine='histx',
+        technique='finite complete product enumeration (input x entry point x output argument x starting directory) on the real entry points, the CLI as real subprocesses',
+        category='exploration',
+        text=('112 executions covering every combination; reports compared across entry points, report/JSON placement and exit status on the CLI, '
+              'relative output-file parameters resolved against the starting directory, no report after a failing simulation.'),
+        design_ref='DESIGN.md section 4 C20',
+        note='Direct main() is driven with absolute paths.'),
 }
 
 
@@ -167,10 +184,12 @@ def manifest():
             'enable': 'checks export GEOPHIRES_X_VERIF=1 (bin/check) and import /repo/src directly; no build step',
             'baseline_off_cmd': BASELINE,
             'source_commits': ['b900803'],
-            'fix_commits': ['83ef652', '14ba6d3', '02fd4ac', 'a169dc6', '7ac55fd'],
+            'fix_commits': ['83ef652', '14ba6d3', '02fd4ac', 'a169dc6', '7ac55fd', '7b44272', 'e599a4c', 'a02ed85', 'dc24d41', '1888e79'],
             'add_only': True,
         },
         'engines': [
+            {'name': 'histx', 'path': 'vf/engines/histx.py', 'serves_properties': ['C08', 'C20'],
+             'kind_free_text': 'explicit-state search over request histories: a state is the history that produced it, replayed in one forked process; process-state vector digest as canonical state'},
             {'name': 'poolx', 'path': 'vf/engines/poolx.py', 'serves_properties': ['C13', 'C14'],
              'kind_free_text': 'fork-faithful controlled replacement of ProcessPoolExecutor; enumerates all set partitions of tasks over workers (and all fail subsets) on the real Monte-Carlo main()'},
             {'name': 'ilvx', 'path': 'vf/engines/ilvx.py', 'serves_properties': ['C13', 'C14'],
